@@ -611,7 +611,7 @@ func malformed(c *hx.Ctx) {
 }
 
 func Run(c *hx.Ctx) {
-	c.Rep.Rule = "names: every stem × extension × case variant + random names; magic: crafted prefixes, the 500-byte XML window, random prefixes; zipfmt: all single members, ordered pairs and random member lists over markers/prefixes/decoys/mimetype contents; documents: the harness's own writers for PDF, DOCX, ODT, XLSX, PPTX, HTML, EPUB 2/3 (+ HTML the sniffer cannot classify), each in canonical/reversed/markers-last/shuffled member orders and with decoy members of other formats in front/behind/between, each stored under all eight extensions, case variants, no and unsupported extensions and opened with tabula.Open(name).Text(); mentions: the same for documents of every format whose content quotes the signatures of the OTHER formats (%PDF-x.y, PK\\x03\\x04, doctype / <html>, mimetype strings, main part names) in title, meta, comments, attributes, body text, PDF comments / streams / page text / Info, ZIP member names and stored member data - marks × offsets (front, inside / across / beyond 512, 1024, 4096 bytes) swept for HTML and PDF, sampled for the ZIP formats and unclassifiable HTML; openings: HTML documents sweeping how the front of the file may be spelled under the HTML/XML grammar - root start tag alone / after a DOCTYPE / omitted after one / after an XML declaration (XHTML) x the whitespace after the first keyword (one blank, LF, CRLF, CR, TAB, FF, runs and indentation) x letter case of tag name and DOCTYPE keywords x 0-3 attributes in quoted/unquoted/empty form spread over lines x legacy DOCTYPE strings x leading whitespace; embeddings: DOCX / XLSX / PPTX / ODT / EPUB packages that embed a file of another kind (docx docm dotx xlsx xlsm xltx pptx pptm sldx ppsx odt ods odp pdf html epub, OLE object; real documents from the harness's writers) as a proper part and declare its media type the host's own way - OOXML: part under <main dir>/embeddings, relationship from sheet / document / slide, Default-by-extension or Override content type at the front or back of [Content_Types].xml; ODT: sub-document directory or plain member listed in META-INF/manifest.xml; EPUB: non-spine manifest item - host x payload kind swept, a second payload on one in three, each through the same layouts x names; EPUB DRM matrix: rights file, unparsable metadata, all subsets of manifest items × algorithm, random subset×algorithm mixes, entry permutations and URI case/path forms (percent-encoded URI reference, per-segment component escaping, and the archive member name copied verbatim), over EPUBs whose chapter and font file names are conventional, or built from OCF-legal characters that are delimiters/escapes in a URI (stray '%', '#', brackets, sub-delimiters, blanks, '^', '`', braces; in file and directory names) - none / one in four / all of them per block of ten EPUBs; malformed: truncated/empty/markerless archives, random bytes; public API: every Format value through String/Extension/Detect; archives through validateMimetype, sniffer + checkForDRM and epubdoc.OpenReader (EPUBs in every DRM state x intact/shuffled/no container/no OPF/broken container/no or wrong mimetype/no markers, other formats' documents, junk, random member lists over the names the three mechanisms key on and near misses of them with good/broken encryption.xml, members that cannot be opened); the three URI spellings of EPUB item paths and of random byte strings; worlds (valid documents of the seven formats, shuffled with decoys, unclassifiable HTML, DRM / damaged EPUBs, junk bytes, missing file, directory) under every extension + case variants + none + nested/misleading names x every kind of operation of the public API on a fresh Open; random call histories of 4-14 calls (Open under 3 names holding the same bytes, FromReader, FromHTMLString / failing FromHTMLReader, configuration methods incl. an invalid PageRange, operations of every kind, Close, rewrites among 1-3 versions of the bytes). non-trivial = a document opened with its token in the text / an op with a definite format"
+	c.Rep.Rule = "names: every stem × extension × case variant + random names; magic: crafted prefixes, the 500-byte XML window, random prefixes; zipfmt: all single members, ordered pairs and random member lists over markers/prefixes/decoys/mimetype contents; documents: the harness's own writers for PDF, DOCX, ODT, XLSX, PPTX, HTML, EPUB 2/3 (+ HTML the sniffer cannot classify), each in canonical/reversed/markers-last/shuffled member orders and with decoy members of other formats in front/behind/between, each stored under all eight extensions, case variants, no and unsupported extensions and opened with tabula.Open(name).Text(); mentions: the same for documents of every format whose content quotes the signatures of the OTHER formats (%PDF-x.y, PK\\x03\\x04, doctype / <html>, mimetype strings, main part names) in title, meta, comments, attributes, body text, PDF comments / streams / page text / Info, ZIP member names and stored member data - marks × offsets (front, inside / across / beyond 512, 1024, 4096 bytes) swept for HTML and PDF, sampled for the ZIP formats and unclassifiable HTML; openings: HTML documents sweeping how the front of the file may be spelled under the HTML/XML grammar - root start tag alone / after a DOCTYPE / omitted after one / after an XML declaration (XHTML) x the whitespace after the first keyword (one blank, LF, CRLF, CR, TAB, FF, runs and indentation) x letter case of tag name and DOCTYPE keywords x 0-3 attributes in quoted/unquoted/empty form spread over lines x legacy DOCTYPE strings x leading whitespace; embeddings: DOCX / XLSX / PPTX / ODT / EPUB packages that embed a file of another kind (docx docm dotx xlsx xlsm xltx pptx pptm sldx ppsx odt ods odp pdf html epub, OLE object; real documents from the harness's writers) as a proper part and declare its media type the host's own way - OOXML: part under <main dir>/embeddings, relationship from sheet / document / slide, Default-by-extension or Override content type at the front or back of [Content_Types].xml; ODT: sub-document directory or plain member listed in META-INF/manifest.xml; EPUB: non-spine manifest item - host x payload kind swept, a second payload on one in three, each through the same layouts x names; EPUB DRM matrix: rights file, unparsable metadata, all subsets of manifest items × algorithm, random subset×algorithm mixes, entry permutations and URI case/path forms (percent-encoded URI reference, per-segment component escaping, and the archive member name copied verbatim), over EPUBs whose chapter and font file names are conventional, or built from OCF-legal characters that are delimiters/escapes in a URI (stray '%', '#', brackets, sub-delimiters, blanks, '^', '`', braces; in file and directory names) - none / one in four / all of them per block of ten EPUBs; malformed: truncated/empty/markerless archives, random bytes; public API: every Format value through String/Extension/Detect; archives through validateMimetype, sniffer + checkForDRM and epubdoc.OpenReader (EPUBs in every DRM state x intact/shuffled/no container/no OPF/broken container/no or wrong mimetype/no markers, other formats' documents, junk, random member lists over the names the three mechanisms key on and near misses of them with good/broken encryption.xml, members that cannot be opened); the three URI spellings of EPUB item paths and of random byte strings; worlds (valid documents of the seven formats, shuffled with decoys, unclassifiable HTML, DRM / damaged EPUBs, junk bytes, missing file, directory) under every extension + case variants + none + nested/misleading names x every kind of operation of the public API on a fresh Open; random call histories of 4-14 calls (Open under 3 names holding the same bytes, FromReader, FromHTMLString / failing FromHTMLReader, configuration methods incl. an invalid PageRange, operations of every kind, Close, rewrites among 1-3 versions of the bytes); bytes: names, file fronts, mimetype contents and cipher references as BYTES - non-ASCII letters (incl. the four runes whose case image is an ASCII letter: U+0130, U+0131, U+017F, U+212A), ill-formed UTF-8, every white-space rune of unicode.IsSpace and near misses (U+FEFF, U+200B, lone continuation bytes) around the media types, the XML-declaration window with fillers that change their length in upper case (ill-formed bytes x3, U+0250 2->3, U+017F 2->1) landing the root tag around position 500 of the bytes and of the upper-cased text, the case tables of package unicode sent with each op and checked on every rune; encryption.xml files from a writer of its own (default namespace / prefixes, XML declaration, BOM, comments and processing instructions between elements, KeyInfo, EncryptedKey siblings, EncryptionProperties, single quotes, character references) with 0-3 declared entries over ASCII and non-ASCII references - schema-valid, schema-valid with a namespace declaration named like the attribute (xmlns:Algorithm / xmlns:URI, in front of or behind it), eleven kinds of file outside the schema (EncryptedData / EncryptionMethod one level too deep, qualified attributes, repeated EncryptionMethod / CipherData / CipherReference, other letter case, child content), and a malformed stream (truncated, wrong root, bad end tag, other charset, bad entity, leading text, trailing garbage, no element) - through tabula's own xml.Unmarshal and hasEncryptedContent; byte-level worlds (HTML with non-ASCII and ill-formed text behind DOCTYPE / root tag, byte-order mark or comment in front, XHTML prologs whose upper-cased length differs from their byte length, EPUBs with Unicode white space around the media type with and without container, EPUBs carrying the encryption files above over their own manifest items, and the worlds of the API stream) under names of arbitrary bytes x every extension x kinds of operation. non-trivial = a document opened with its token in the text / an op with a definite format"
 	extOps(c)
 	magicOps(c)
 	zipfmtOps(c)
@@ -635,6 +635,7 @@ func Run(c *hx.Ctx) {
 	}
 	malformed(c)
 	apiOps(c)
+	bytesOps(c)
 }
 
 // Replay re-runs one recorded failing case on the implementation.
@@ -661,6 +662,12 @@ func Replay(c *hx.Ctx, kase map[string]interface{}) {
 		RunAPIHist(c, idx, true)
 	case "api-gate":
 		gateOps(c)
+	case "bytes-open":
+		RunBytesOpen(c, idx, true)
+	case "bytes-enc":
+		encOps(c)
+	case "bytes-units":
+		byteUnitOps(c)
 	case "ext":
 		extOps(c)
 	case "malformed":
